@@ -210,8 +210,9 @@ class Program:
               '    ptg_rt_set_adt(&tp->arenas_datatypes[PARSEC_%s_DEFAULT_ADT_IDX]);' % n,
               '    return &tp->super;', '}',
               'static int ptg_initial(parsec_taskpool_t *tp) { return ((__parsec_%s_internal_taskpool_t *)tp)->initial_number_tasks; }' % n,
+              'static int ptg_inited(parsec_taskpool_t *tp) { return 0 == ((__parsec_%s_internal_taskpool_t *)tp)->sync_point; }' % n,
               'static void ptg_unmake(parsec_taskpool_t *tp) { ptg_rt_unset_adt(&((parsec_%s_taskpool_t *)tp)->arenas_datatypes[PARSEC_%s_DEFAULT_ADT_IDX]); }' % (n, n),
-              'int main(int argc, char **argv) { return ptg_rt_main(argc, argv, %d, ptg_make, ptg_initial, ptg_unmake); }' % self.nglobals,
+              'int main(int argc, char **argv) { return ptg_rt_main(argc, argv, %d, ptg_make, ptg_initial, ptg_inited, ptg_unmake); }' % self.nglobals,
               '%}', '']
         return '\n'.join(o)
 
@@ -347,10 +348,11 @@ def declared_space(prog, g, ci):
             lo, hi, st = ev(l['lo'], g, env), ev(l['hi'], g, env), ev(l['step'], g, env)
             if st == 0:
                 continue
+            # all v between lo and hi (inclusive, whichever is larger) with v = lo (mod |step|)
             a, b = (lo, hi) if st > 0 else (hi, lo)
-            for v in range(a, b + 1):
-                if (v - lo) % abs(st) == 0:
-                    nxt.append(env + [v])
+            first = a + ((lo - a) % abs(st))
+            for v in range(first, b + 1, abs(st)):
+                nxt.append(env + [v])
         envs = nxt
     return set(tuple(e) for e in envs)
 
